@@ -1,4 +1,4 @@
-CONSTANTS MaxLin = 1 MaxQuad = 1 MaxQuadLin = 0 MaxMono = 1 MaxMonoLen = 4
+CONSTANTS MaxLin = 1 MaxQuad = 1 MaxQuadLin = 0 MaxMono = 1 MaxMonoLen = 3
 INIT Init
 NEXT DoEvalBound
 INVARIANT Emit
